@@ -5,18 +5,26 @@ import Anysystem.Proofs.SimQueueThms
 import Anysystem.Proofs.SimNetThms
 import Anysystem.Proofs.SimLogThms
 /-!
-# R4 (partial: fault rates zero) — one simulator step is a reduced-enabled step of the reference semantics
+# R4 (partial: duplication and corruption rates zero, drop rate arbitrary) — one simulator step is a reduced-enabled
+step of the reference semantics
 
 Setting: a clock-free program `h : Handler σ` run by the simulator (the simulator handler ignores clock and
-draws), all three fault rates zero (link controls arbitrary), no `crash_node` / `recover_node` calls during the
-execution considered (nodes crashed earlier stay crashed).  `TimedRel q r` relates a simulator state `q` and a
-reference state `r`:
+draws), duplication and corruption rates zero, **drop rate arbitrary** (link controls arbitrary), no `crash_node` /
+`recover_node` calls during the execution considered (nodes crashed earlier stay crashed).  `TimedRel q r` relates a
+simulator state `q` and a reference state `r`:
 
 * the same processes with the same state and local outbox; the same crashed nodes; the same link controls;
 * the in-flight messages of `r` are, as a multiset **of (message, source, destination) triples**, the live queued
-  message copies of `q` addressed to nodes that still have a handler, and every flight of `r` carries delivery
-  options that permit no fault (`Opts.noFault`: `noFail`, or `faults false 0 false`) — a run that started quiet
-  gives each flight the options `zeroOpts`, the snapshot `ModelChecker::new` gives every flight `noFail`;
+  message copies of `q` addressed to nodes that still have a handler **plus zombies**: triples of messages the
+  simulator dropped at random when they were sent (`sendMessage` decides the drop at send time and queues nothing)
+  while the reference semantics put them in flight (it may drop a flight later, by a `drop` label, and need not).
+  There are no zombies when the reference network cannot drop (`dropPos = false`).  Every flight of `r` carries
+  delivery options that permit neither duplication nor corruption (`Opts.dropOnly`: `noFail`, or `faults _ 0 false`)
+  — a run that started quiet gives each cross-node flight the options `faults dropPos 0 false`, the snapshot
+  `ModelChecker::new` gives every flight `noFail`.  A zombie never has to be dropped by the reference run: the
+  reduced semantics looks at a flight's triple only (`oldestIdentical`), so when the simulator delivers a copy with
+  triple `c` the reference run delivers the oldest flight with triple `c`, whether that flight "is" the zombie or the
+  live one, and the multiset equation is kept;
 * the pending timers of `r` are the live queued timer events of `q` (all of them are on nodes with handler), each
   pending under its name in its process's timer map, and — this is what makes the reduction sound — every
   queued timer event `i` has a *set clock* `c_i` with `time_i = c_i + delay_i`, `c_i ≤ clock`; along the list of
@@ -44,6 +52,17 @@ def Opts.noFault : Opts → Bool
   | .noFail _ => true
   | .faults false 0 false => true
   | _ => false
+
+/-- delivery options that permit neither duplication nor corruption (a drop may be permitted) -/
+def Opts.dropOnly : Opts → Bool
+  | .noFail _ => true
+  | .faults _ 0 false => true
+  | _ => false
+
+theorem Opts.dropOnly_of_noFault {o : Opts} (h : o.noFault = true) : o.dropOnly = true := by
+  cases o with
+  | noFail d => rfl
+  | faults a n c => cases a <;> cases n <;> cases c <;> first | rfl | cases h
 
 /-- what the reduced semantics looks at in a flight (the same function as `Flight.core` of `R5Defs`) -/
 def Flight.key (f : Flight) : Msg × Nat × Nat := (f.m, f.src, f.dst)
@@ -75,10 +94,12 @@ def TimerGhost.toPTimer (g : TimerGhost T) : PTimer := ⟨g.proc, g.name, g.dela
 /-- the time at which the timer event of a ghost fires -/
 def TimerGhost.fire (g : TimerGhost T) : T := TimeOps.add g.setClock (TimeOps.ofBits g.delay)
 
-/-- network part: rates are zero on both sides, link controls and locations agree, crashed = no handler -/
+/-- network part: duplication and corruption rates are zero on both sides (the drop rate is arbitrary, the reference
+    network may drop iff it is positive), link controls and locations agree, crashed = no handler -/
 structure NetRel (bits : T → Nat) (q : Sim σ T) (r : RState σ) : Prop where
-  ratesZero : q.net.dropRate = TimeOps.zero ∧ q.net.duplRate = TimeOps.zero ∧ q.net.corruptRate = TimeOps.zero
-  netFlags : r.net.dropPos = false ∧ r.net.duplNonzero = false ∧ r.net.corruptPos = false
+  ratesZero : q.net.duplRate = TimeOps.zero ∧ q.net.corruptRate = TimeOps.zero
+  netFlags : r.net.dropPos = TimeOps.lt TimeOps.zero q.net.dropRate ∧ r.net.duplNonzero = false ∧
+    r.net.corruptPos = false
   netLoc : r.net.procLoc = q.net.procLoc
   /-- from a node with handler to an existing node: the directed path is enabled in `r` exactly when it is not cut
       in `q` and the target has a handler -/
@@ -133,10 +154,17 @@ structure TimerRel (bits : T → Nat) (q : Sim σ T) (r : RState σ) (ghosts : L
     amGet? name e.pending = some id ↔ ∃ ev ∈ q.live, ev.id = id ∧ ev.data = .timer p name
   uniq : r.timersUnique
 
-/-- in-flight messages, as a multiset of (message, source, destination) triples; their options permit no fault -/
+/-- the (message, source, destination) triples of the deliverable queued message copies -/
+def Sim.liveKeys (q : Sim σ T) : List (Msg × Nat × Nat) := q.deliverable.filterMap fun e => keyOfQ e.data
+
+/-- in-flight messages, as a multiset of (message, source, destination) triples: the deliverable queued copies plus
+    the zombies `zs` (messages the simulator dropped at random when they were sent, still in flight in `r`); no
+    zombies unless the reference network can drop; the options of every flight permit no duplication and no
+    corruption -/
 structure FlightRel (q : Sim σ T) (r : RState σ) : Prop where
-  perm : (r.flights.map Flight.key).Perm (q.deliverable.filterMap fun e => keyOfQ e.data)
-  inert : ∀ f ∈ r.flights, f.o.noFault = true
+  perm : ∃ zs : List (Msg × Nat × Nat),
+    (r.flights.map Flight.key).Perm (q.liveKeys ++ zs) ∧ (r.net.dropPos = false → zs = [])
+  inert : ∀ f ∈ r.flights, f.o.dropOnly = true
 
 structure TimedRel (bits : T → Nat) (q : Sim σ T) (r : RState σ) (ghosts : List (TimerGhost T)) : Prop where
   net : NetRel bits q r
